@@ -243,13 +243,15 @@ package proxy
 //@   requires dst != nil && (wrapperOf[src] == nil || !mayHold[wrapperOf[src]])
 //@   // each connection is the destination of exactly one direction: both of its deadlines must be clear
 //@   requires !readDeadline[dst] && !writeDeadline[dst]
-//@   assigns rd, wr
+//@   assigns rd, wr, connClosed
 //@
 //@ func closeWrite
 //@   props C09
 //@   requires c != nil
-//@   assigns nothing
+//@   assigns connClosed
 //@   ensures nopanic
+//@   // ending a direction half-closes whatever can be half-closed
+//@   ensures typeIs(c, *net.TCPConn) || typeIs(c, *tls.Conn) ==> connClosed[c] == old(connClosed[c])
 //@
 //@ // what a dial function hands out on success: a connection, newly made - no buffered reader has been put over it
 //@ // (assumed of net.Dial / tls.Dial, which is what ServeHTTP passes in)
